@@ -5,13 +5,10 @@ from money import *
 def zero_fact(p, dom, x):
     """(has_true, has_false): facts [0 == y] with y == x in the domain"""
     t = f_ = False
-    for f, _, _ in p.facts:
-        if f[0] == 'val' and f[1][0] == 'eq' and isinstance(f[2], bool):
-            a, b = f[1][1], f[1][2]
-            y = b if a == I(0) else (a if b == I(0) else None)
-            if y is not None and dom.eq(y, x):
-                if f[2]: t = True
-                else: f_ = True
+    for y, sg in p.signs():
+        if isinstance(y, tuple) and numericish(y) and dom.eq(y, x):
+            if sg == 'zero': t = True
+            else: f_ = True
     return t, f_
 
 def record_base(val):
